@@ -337,6 +337,13 @@ func c09Futures(w *mon.W, rng *rand.Rand, idx int) {
 }
 
 // (d) combinators with gated futures
+func c09Min(a, b int) int {
+	if a < b {
+		return a
+	}
+	return b
+}
+
 func c09Combinators(w *mon.W, rng *rand.Rand, idx int) {
 	n := 2 + rng.Intn(4)
 	if idx%3 == 0 {
@@ -416,6 +423,20 @@ func c09Combinators(w *mon.W, rng *rand.Rand, idx int) {
 		w.Violate("all:error-swallowed", fmt.Sprintf("All returned %v although input %d rejects", v, firstErr), wit)
 	} else if !strings.HasPrefix(err.Error(), "err") && !strings.Contains(err.Error(), "cancel") {
 		w.Violate("all:unexpected-error", err.Error(), wit)
+	} else {
+		// the outcome of All is a function of its inputs' outcomes, not of the order they settle in: it reports the
+		// rejection with the lowest index, and the inputs in front of that one keep their own results
+		if err.Error() != fmt.Sprintf("err%d", firstErr) {
+			w.Violate("all:error-depends-on-settle-order", fmt.Sprintf("All over %d inputs of which input %d is the first (by position) to reject reports %q; released in order %v", n, firstErr, err.Error(), order[:c09Min(len(order), 12)]), wit)
+		}
+		for i := 0; i < firstErr && i < 64; i++ {
+			iv, ierr := fs[i].AwaitWithTimeout(10 * time.Second)
+			if ierr != nil || iv != fmt.Sprintf("val%d", i) {
+				w.Violate("all:earlier-input-lost-its-result", fmt.Sprintf("input %d (in front of the first rejecting input %d) resolves with val%d, but another awaiter of it gets %v, %v after All settled", i, firstErr, i, iv, ierr), wit)
+				break
+			}
+		}
+		w.Count("all_rejections_checked_for_position_and_earlier_inputs", 1)
 	}
 	// Race: outcome of the first settled
 	fs, gates = mk()
